@@ -196,7 +196,15 @@ def run(idx, rep, tier):
                             n_sites += 1
                             check_ctor_annotation(idx, rep, fi, c, rr.val.name)
     rep.analysed["annotation_output_sites"] = n_sites
-    rep.floor("annot-rule", 9)
+    # ---- SLICE-ROLE: index objects of a Sliced are resolved against the parent's shape wherever they are materialised
+    from sa.slicerole import slice_role_obligations
+    readers = [f for f in idx.funcs.values() if f.module.name in core and not (f.cls is not None and f.cls.name == "Sliced" and f.name == "__init__")
+               and any(isinstance(n, ast.Attribute) and n.attr == "slices" and isinstance(n.ctx, ast.Load) for n in df.body_nodes(f.node))]
+    rep.analysed["functions reading .slices"] = sorted(f.qual for f in readers)
+    n_sites = slice_role_obligations(idx, rep, "slice-resolution", readers)
+    if not n_sites:
+        rep.note(f"slice-resolution: {len(readers)} functions read `.slices`; none materialises them with arange(N)[s] on this tree (the self-test keeps a firing example)")
+    rep.floor("annot-rule", 16)
     rep.floor("annot-sound", 5000)
     rep.floor("annot-merge", 1)
     rep.floor("declare-annotation", 1)
